@@ -95,6 +95,26 @@ theorem get_cluster_none (e : Env) (n : Str) (h : ∀ q ∈ e, repoGet q n = non
     simp only [getCluster, h q List.mem_cons_self]
     exact ih (fun x hx => h x (List.mem_cons_of_mem _ hx))
 
+/-- "explicit arguments override the file" for a repository: an explicit `clusters` argument replaces the clusters of the
+    configuration as a whole — a name defined only in the configuration is not defined by the repository, so it resolves
+    to a later repository or to nothing -/
+theorem repo_clusters_arg_overrides (home : Str) (cfgClusters : List (Str × ClusterCfg)) (arg : Repo) (n : Str) :
+    repoGet (mkRepo home cfgClusters (some arg)) n = repoGet arg n := rfl
+
+theorem repo_clusters_arg_hides_config (home : Str) (cfgClusters : List (Str × ClusterCfg)) (arg : Repo) (post : List Repo)
+    (n : Str) (h : repoGet arg n = none) :
+    getCluster (mkRepo home cfgClusters (some arg) :: post) n = getCluster post n := by
+  simp only [getCluster, mkRepo, h]
+
+/-- without the argument the clusters are those of the configuration, each built as `FunctionCluster(config)` builds it -/
+theorem repo_clusters_from_config (home : Str) (k : Str) (cc : ClusterCfg) (rest : List (Str × ClusterCfg)) :
+    repoGet (mkRepo home ((k, cc) :: rest) none) k = some (mkCluster home cc none none) := by
+  simp [mkRepo, repoGet]
+
+example : getCluster [mkRepo 9 [(1, { name := 1 })] (some [(2, mkCluster 9 { name := 2 } none none)]),
+                      [(1, mkCluster 9 { name := 1, runner := some 1 } none none)]] 1
+    = some (mkCluster 9 { name := 1, runner := some 1 } none none) := by decide
+
 theorem repoGet_map (f : ClusterSig → ClusterSig) (r : Repo) (n : Str) :
     repoGet (r.map (fun kc => (kc.1, f kc.2))) n = (repoGet r n).map f := by
   induction r with
